@@ -40,7 +40,12 @@ func (a *actorProcess) delivery(sender, forward *prc.ProcessId, message prc.Mess
 		sender = forward
 	}
 
-	switch message.(type) {
+	// 消息在投递时已被 prc.MessageWrapper 包装，需要以其内部消息判断邮箱的挂起与恢复
+	inner := message
+	if wrapper, ok := message.(*prc.MessageWrapper); ok {
+		inner = wrapper.Message
+	}
+	switch inner.(type) {
 	case *onSuspendMailboxMessage:
 		a.mailbox.Suspend()
 	case *onResumeMailboxMessage:
